@@ -470,6 +470,18 @@ func (r *Resolver) resolve(ctx context.Context, rs *resolveState) (*dns.Msg, err
 			rs.isRoot = false
 			return r.resolve(ctx, rs)
 		}
+		if resp.Rcode == dns.RcodeNameError && r.dnssec && !rs.req.CheckingDisabled {
+			// A name error without an authority section carries no denial
+			// proof. Under a signed zone that is a missing proof, not an
+			// answer: let authority() decide, as it does for every other
+			// negative response (it accepts the response only when the name
+			// sits in a zone that is proven insecure).
+			result, resultErr := r.authority(ctx, rs.req, resp, rs.parentDS, rs.servers.Zone)
+			if resultErr == nil {
+				r.clearResolutionZoneFailure(rs.req.Question[0], rs.servers.Zone)
+			}
+			return result, resultErr
+		}
 		if serverFailureResponse {
 			r.recordResolutionZoneFailure(ctx, rs.req.Question[0], rs.servers.Zone, nil)
 		} else {
@@ -509,7 +521,16 @@ func (r *Resolver) resolve(ctx context.Context, rs *resolveState) (*dns.Msg, err
 		return r.processAuthoritySection(ctx, rs, minReq, resp, minimized) // handle delegation or authority data
 	}
 
-	// no answer, no authority. create new msg safer, sometimes received weird responses
+	// no answer, no authority. Under a signed zone an empty NOERROR is a
+	// NODATA without its denial proof: authority() fails it unless the name
+	// sits in a zone that is proven insecure.
+	if r.dnssec && !rs.req.CheckingDisabled {
+		if _, err := r.authority(ctx, rs.req, resp, rs.parentDS, rs.servers.Zone); err != nil {
+			return nil, err
+		}
+	}
+
+	// create new msg safer, sometimes received weird responses
 	m := new(dns.Msg) // return clean empty response instead of malformed data
 
 	m.Question = rs.req.Question
